@@ -144,3 +144,29 @@ pub fn opt_abort(rng: &mut Rng, enabled: bool, per_mille: u64) -> Option<u16> {
         None
     }
 }
+
+/// Principals an authorisation variant can resolve to, for one call.
+#[derive(Clone, Copy, Debug)]
+pub struct AuthCtx {
+    /// the principal the entry point requires
+    pub right: usize,
+    pub former: Option<usize>,
+    pub other_role: usize,
+    pub counterparty: usize,
+    pub owner: usize,
+    pub stranger: usize,
+}
+
+/// (who authorises, whether it authorises different arguments)
+pub fn resolve_auth(a: AuthVar, c: &AuthCtx) -> Option<(usize, bool)> {
+    match a {
+        AuthVar::Right | AuthVar::RootOnly => Some((c.right, false)),
+        AuthVar::RightOtherArgs => Some((c.right, true)),
+        AuthVar::Former => Some((c.former.unwrap_or(c.stranger), false)),
+        AuthVar::OtherRole => Some((c.other_role, false)),
+        AuthVar::Counterparty => Some((c.counterparty, false)),
+        AuthVar::Owner => Some((c.owner, false)),
+        AuthVar::Stranger => Some((c.stranger, false)),
+        AuthVar::Nobody => None,
+    }
+}
